@@ -1,4 +1,5 @@
 import IgVerif.Lemmas.Remap
+import IgVerif.Lemmas.ClosedRemap
 import IgVerif.Schema
 /-!
 # C11 — the database is referentially closed; wrapper indices are 1..n
@@ -48,6 +49,35 @@ theorem c11_order_preserved (sch : Schema) (rc : RemapCfg) (db : Db) (first : In
   induction db.wrappers.length generalizing first with
   | zero => rfl
   | succ k ih => simp [consec, ih]
+
+/-- per kind, every index-typed member the translator found in the headers is among the members
+that kind's `remap_indices()` passes through the remapper (both lists regenerated on every run) -/
+theorem c11_covers (k : Kind) : Covers (IndexCfg.of Gen.indexMembers k) (RemapCfg.of Gen.remapMembers k) := by
+  apply covers_of_all
+  cases k <;> decide
+
+/-- **Closure is preserved.** A referentially closed database — every stored index is 0 ("none")
+or names an existing entry of the expected kind, and the global/all enumerations list existing
+entries — is still closed after `remap_indices(first)`, for every `first`: the builder's final
+renumbering and the renumbering on load cannot create a dangling reference.  Hypotheses: no index
+is used by entries of two kinds and 0 is not an index (true of every database `remap_indices`
+itself produced with `first ≥ 1`: `c11_ranges`). -/
+theorem c11_closed_preserved (db : Db) (first : Int)
+    (hd : db.kindsDisjointB = true) (h0 : ∀ k, (0 : Int) ∉ (db.map k).map (·.1))
+    (hcl : db.closedB schema Gen.indexMembers = true) :
+    (db.remapIndices schema Gen.remapMembers first).1.closedB schema Gen.indexMembers = true :=
+  closed_remap schema Gen.indexMembers Gen.remapMembers db first c11_covers hd h0 hcl
+
+/-- the hypotheses are satisfiable by a database with a live cross reference (wrapper 5 → function 7),
+and the conclusion is not trivial: the reference is carried to the function's new index -/
+def exDb : Db :=
+  { wrappers := [(5, setVal schema.wrapper (defaultRec schema.wrapper) "_function" (.a (.int 7)))],
+    functions := [(7, defaultRec schema.function)], allFunctions := [7] }
+
+example : exDb.kindsDisjointB = true ∧ exDb.closedB schema Gen.indexMembers = true ∧
+    (exDb.remapIndices schema Gen.remapMembers 1).1.allFunctions = [2] ∧
+    ((exDb.remapIndices schema Gen.remapMembers 1).1.wrappers.map
+      fun p => (p.1, getInt schema.wrapper p.2 "_function")) = [(1, 2)] := by decide
 
 example : consecutiveFrom 1 [1, 2, 3] = true ∧ consecutiveFrom 1 [1, 3] = false := by decide
 
